@@ -3,10 +3,20 @@ socket, followed by the capacity probe: N-1 connections held open and idle (each
 worker in `read`), and an N-th valid request that must still be answered.
 Connection kinds: valid request, every known fault-provoking request (regression corpus of the
 C04 findings), early close, reset (RST) before sending, bursts of connections reset while still in the listen queue (server stopped with SIGSTOP meanwhile), reset right after sending, half-sent
-request then close, an upload cut short inside its announced body (then FIN or close), oversized request.  Oracle on the implementation alone: the server process is
-alive after the history, valid requests in the history are answered, and the probe is answered."""
+request then close, an upload cut short inside its announced body (then FIN or close), oversized request; and the kinds of
+vlib/gen_c06.py (generator audit): the valid request from a client that keeps its sending side open, other valid requests, an
+8 MiB answer read completely or abandoned while it is being written (write error at any byte), stalls, requests in several
+segments, requests cut at every place of the head, Content-Length in every relation to the body, requests of exactly the size of
+the request buffer (also on servers with another buffer size), pipelined requests, bursts of simultaneous connections, idle
+connections held open while other connections are made (a sub-history through one worker), more connections than the process
+may have descriptors (accept() fails), probes in the middle of the history.  History shapes: the old random ones, mixed ones,
+the SAME kind more than 16 times per worker followed by a probe, descriptor limit, held connections and bursts.
+Oracle on the implementation alone: the server process is alive after the history, valid requests in the history are answered
+(GET /f.txt: 200 and the five bytes of the file), the probe is answered (client half-closing or not; twice in every fourth
+history), and after the probe every request of a table of valid requests is answered as a FRESH server answers the same bytes
+(Date line apart; form echoes as a multiset of lines) - the answer to a valid request does not depend on the history."""
 import os, socket, struct, time, tempfile, shutil, threading
-from vlib import common as C, realbin as RB
+from vlib import common as C, realbin as RB, gen_c06 as G
 
 VALID = b'GET /f.txt HTTP/1.1\r\nHost: x\r\n\r\n'
 FAULTY = [b'GET x HTTP/1.1\r\n\r\n', b'GET * HTTP/1.1\r\n\r\n', b'GET http://a/b HTTP/1.1\r\n\r\n', b'PUT : HTTP/1.1\r\n\r\n',
@@ -49,7 +59,7 @@ def one(server, kind, rng):
                     except OSError: break
             finally:
                 server.proc.send_signal(signal.SIGCONT)
-            time.sleep(0.05)
+            time.sleep(0.01)
             return b'', ''
         s = _conn(server.port)
         if kind == 'early-close': s.close()
@@ -79,14 +89,15 @@ def one(server, kind, rng):
     except OSError as e:
         return None, f'{kind}: {type(e).__name__}: {e}'
 
-def probe(server, n, timeout=8):
-    """N-1 idle connections, then one valid request; True iff answered 200"""
+def probe(server, n, timeout=8, half_close=True, pause=0.05):
+    """N-1 idle connections, then one valid request (from a client that half-closes after sending, or one that does not);
+    True iff answered 200"""
     idle = []
     try:
         for _ in range(n - 1):
             idle.append(_conn(server.port))
-        time.sleep(0.05)
-        try: r = server.request(VALID, timeout=timeout)
+        time.sleep(pause)        # not needed for the verdict (the pool hands connections out in the order they were accepted): a courtesy under load
+        try: r = server.request(VALID, timeout=timeout, half_close=half_close)
         except Exception as e: return False, f'{type(e).__name__}: {e}'
         return r.startswith(b'HTTP/1.1 200'), r[:40]
     finally:
@@ -94,42 +105,154 @@ def probe(server, n, timeout=8):
             try: s.close()
             except OSError: pass
 
-def run_part(res, rng, tier):
+def _old_history(rng, tier, h, quick_len=True):
+    """the histories this check has always made (kinds of KINDS; their variants are drawn while they run)"""
+    n = rng.choice([1, 2, 3, 4, 8])
+    length = rng.range(1, 40) if (quick_len or rng.chance(1, 2)) else rng.range(40, 400)
+    hist = [rng.choice(KINDS) if rng.chance(3, 4) else 'faulty' for _ in range(length)]
+    if rng.chance(1, 3): hist += ['faulty'] * n            # a burst of N fault-provoking connections at the end
+    if h < 3: n = (1, 2, 4)[h]; hist = ['valid'] + ['rst-before-accept'] * 4 + hist[:10] + ['valid']   # several hundred connections reset in the listen queue
+    if 3 <= h < 5: n = (1, 3)[h - 3]; hist = ['valid'] + ['body-cut-short'] * (n + 1) + hist[:8] + ['valid']   # more cut-short uploads than workers
+    return dict(n=n, hist=hist, label='old kinds')
+
+def histories(rng, tier):
+    """every history of the run: dict(n, hist, alloc, nofile, label).  New kinds (vlib/gen_c06.py) are written kind/variant."""
+    quick = tier == 'quick'
+    out = []
+    for h in range(10 if quick else 120):
+        out.append(_old_history(rng, tier, h, quick_len=quick))
+    allk = KINDS + G.NEW_KINDS
+    def elem(k, n, quick_stall=False):
+        return G.pick_variant(k, rng, n, quick_stall) if k in G.NEW_KINDS else k
+    # mixed histories: old and new kinds, some on a server with another request buffer size
+    for h in range(3 if quick else 80):
+        n = rng.choice([1, 2, 3, 4, 8])
+        length = rng.range(5, 25) if quick else rng.range(5, 40) if rng.chance(2, 3) else rng.range(40, 300)
+        alloc = rng.choice([1000, 4096, 65536]) if h % 3 == 2 else None
+        out.append(dict(n=n, hist=['valid'] + [elem(rng.choice(allk), n, quick) for _ in range(length)], alloc=alloc,
+                        label='mixed kinds' + (' (other buffer size)' if alloc else '')))
+    # the SAME thing again and again, more often than 16 per worker (what a leak with a threshold needs), then a probe at once.
+    # quick: three servers, each gets a third of the kinds one after the other (one variant each); thorough: one server per kind and variant
+    slow = ('rst-before-accept', 'burst', 'valid-big', 'probe', 'hold', 'stall', 'split')
+    if quick:
+        order = list(allk); rng.shuffle(order)
+        for part in range(3):
+            n = (1, 1, 2)[part]
+            hist = []
+            for k in order[part::3]:
+                e = elem(k, n, True)
+                hist += [e] * (4 if (k in slow or e.startswith('big-abandon/stall')) else 17 * n + 3) + ['probe']
+            out.append(dict(n=n, hist=hist, label='one kind repeated'))
+    else:
+        for k in allk:
+            for rep in range(4):
+                n = rng.choice([2, 3]) if k in ('hold', 'burst', 'probe') else rng.choice([1, 1, 2])
+                e = elem(k, n, True)
+                reps = 6 if (k in slow[:5] or e.startswith('big-abandon/stall')) else 17 * n + 3
+                out.append(dict(n=n, hist=[e] * reps, label='one kind repeated'))
+    # accept() itself fails for a while: more connections than the process may have descriptors
+    for h in range(1 if quick else 12):
+        n = 2 if quick else (1, 3)[h] if h < 2 else rng.choice([1, 2, 4, 8])
+        limit = rng.choice([20, 24, 40]) + n
+        hist = ['valid']
+        for _ in range(2 if quick else rng.range(2, 5)):
+            hist.append(G.pick_variant('emfile', rng, n))
+            hist += [elem(rng.choice(allk), n, quick) for _ in range(rng.range(0, 3))]
+            if rng.chance(1, 2): hist.append('valid-open')
+        out.append(dict(n=n, hist=hist, nofile=limit, label='descriptor limit'))
+    # a sub-history through ONE worker of N (the others are held by idle connections), and everything at once
+    for h in range(2 if quick else 20):
+        n = (2, 4, 8)[(h + rng.below(3)) % 3]
+        hist = ['valid']
+        for _ in range(2 if quick else rng.range(2, 6)):
+            hist.append(f'hold/{n - 1}/{rng.choice([8, 20, 40])}/{rng.choice(["fwd", "rev"])}/{rng.below(1 << 16)}')
+            hist.append(G.pick_variant(rng.choice(['burst', 'hold', 'probe']), rng, n))
+        out.append(dict(n=n, hist=hist, label='held connections and bursts'))
+    return out
+
+def run_history(srv, hs, rng, ctx, res=None):
+    """runs one history; returns the list of (element, what is wrong) for the elements whose answer the property demands"""
+    unanswered = []
+    for e in hs['hist']:
+        kind = e.split('/')[0]
+        if kind in KINDS:
+            r, note = one(srv, e, rng)
+            bad = None
+            if kind == 'valid': bad = G.judge_answer('valid', r, ctx)
+            elif kind == 'faulty' and r is None: bad = note
+        else:
+            r, note = G.run_new(srv, e, ctx)
+            bad = G.judge_answer(e, r, ctx) if kind in G.DEMANDED + ('hold',) else None
+            if bad and note: bad = f'{bad} ({note})'
+        if res is not None:
+            res.evaluations += 1
+            res.count('connection ' + kind)
+        if bad: unanswered.append((e, bad))
+        if len(unanswered) >= 3 or not srv.alive(): break          # a broken tree: do not wait 10 s for every further element
+    return unanswered
+
+def after_history(srv, hs, ctx, index):
+    """the probe (twice in every fourth history; the client of the request half-closes or not), then every valid request
+    once more: the answers must be those of a fresh server"""
+    n = hs['n']
+    pause = 0.02
+    okp, info = probe(srv, n, half_close=(index % 2 == 0), pause=pause)
+    if okp and index % 4 == 1:
+        okp, info = probe(srv, n, half_close=True, pause=pause)
+        if not okp: info = f'second probe: {info}'
+    wrong = []
+    if okp:
+        elems = ['valid-open'] + [f'valid-other/{i}/{"fin" if (i + index) % 2 else "open"}' for i in range(len(G.VALIDS))]
+        if index % 4 == 0: elems.append('valid-big')
+        for e in elems:
+            r, note = G.run_new(srv, e, ctx)
+            bad = G.judge_answer(e, r, ctx)
+            if bad: wrong.append((e, bad))
+            if len(wrong) >= 3: break
+    return okp, info, wrong
+
+def run_part(res, rng, tier, only=None):
     ok, out = RB.build()
     if not ok:
         res.disagree('cargo build --release', out[-300:], None, 'real-binary-build'); return
-    nhist = 10 if tier == 'quick' else 120
     base = tempfile.mkdtemp(prefix='rwsc06-')
     try:
-        open(os.path.join(base, 'f.txt'), 'wb').write(b'hello')
-        for h in range(nhist):
-            n = rng.choice([1, 2, 3, 4, 8])
-            length = rng.range(1, 40) if (tier == 'quick' or rng.chance(1, 2)) else rng.range(40, 400)
-            hist = [rng.choice(KINDS) if rng.chance(3, 4) else 'faulty' for _ in range(length)]
-            if rng.chance(1, 3): hist += ['faulty'] * n            # a burst of N fault-provoking connections at the end
-            if h < 3: n = (1, 2, 4)[h]; hist = ['valid'] + ['rst-before-accept'] * 4 + hist[:10] + ['valid']   # several hundred connections reset in the listen queue
-            if 3 <= h < 5: n = (1, 3)[h - 3]; hist = ['valid'] + ['body-cut-short'] * (n + 1) + hist[:8] + ['valid']   # more cut-short uploads than workers
-            with RB.Server(base, threads=n, capture_stdout=False) as srv:
-                unanswered = []
-                for k in hist:
-                    r, note = one(srv, k, rng)
-                    res.evaluations += 1
-                    res.count('connection ' + k)
-                    if k == 'valid' and not (r or b'').startswith(b'HTTP/1.1 200'):
-                        unanswered.append((k, note or (r or b'')[:30]))
-                    if k == 'faulty' and r is None: unanswered.append((k, note))
+        big_sha = G.write_docroot(base)
+        hss = histories(rng, tier) if only is None else only
+        fresh = {}
+        have_prlimit = G.prlimit_wrap(20) is not None
+        if not have_prlimit: res.notes.append('prlimit not found: the histories with a descriptor limit (accept() failing) were not run')
+        hist = n = okp = None
+        failing = 0
+        for index, hs in enumerate(hss):
+            n, hist, alloc, nofile = hs['n'], hs['hist'], hs.get('alloc'), hs.get('nofile')
+            if nofile and not have_prlimit: continue
+            if failing >= 5 and only is None:      # a broken tree (every unanswered request costs its 10 s): five failing histories say it
+                res.count('history skipped after five failing histories'); continue
+            if alloc not in fresh: fresh[alloc] = G.fresh_answers(RB.Server, base, alloc)
+            ctx = dict(n=n, fresh=fresh[alloc], big_sha=big_sha, probe=probe, nofile=nofile)
+            case = {'mode': 'socket', 'N': n, 'history': hist}
+            if alloc: case['alloc'] = alloc
+            if nofile: case['nofile'] = nofile
+            with RB.Server(base, threads=n, alloc=alloc, wrap=(G.prlimit_wrap(nofile) if nofile else None), capture_stdout=False) as srv:
+                unanswered = run_history(srv, hs, rng, ctx, res)
                 alive = srv.alive()
-                okp, info = probe(srv, n) if alive else (False, 'server process ended: ' + str(srv.stop()))
+                okp, info, wrong = after_history(srv, hs, ctx, index) if alive else (False, 'server process ended: ' + str(srv.stop()), [])
                 res.count(f'history N={n} len={"<=40" if len(hist) <= 40 else ">40"}')
-                res.distinct.add(hash((n, tuple(hist))))
+                res.count('history: ' + hs.get('label', ''))
+                res.distinct.add(hash((n, tuple(hist), alloc, nofile)))
                 if not alive:
-                    res.fail('server-died', {'mode': 'socket', 'N': n, 'history': hist}, info, None, f'C06: the server process ended during a history of {len(hist)} connections')
+                    res.fail('server-died', case, info, None, f'C06: the server process ended during a history of {len(hist)} connections')
                 elif not okp:
-                    res.fail('capacity-lost', {'mode': 'socket', 'N': n, 'history': hist}, str(info), None,
+                    res.fail('capacity-lost', case, str(info), None,
                              f'C06: after a history of {len(hist)} connections an {n}-worker server no longer serves {n} simultaneous connections (N-1 idle + 1 request: no answer)')
                 if unanswered:
-                    res.fail('unanswered-in-history', {'mode': 'socket', 'N': n, 'history': hist}, str(unanswered[:3]), None,
-                             'C06: a request inside the history got no answer')
-        res.sample({'socket_history': hist[:12], 'N': n, 'probe_answered': okp})
+                    res.fail('unanswered-in-history', case, str(unanswered[:3]), None,
+                             'C06: a valid request inside the history got no answer or a wrong one')
+                if not alive or not okp or unanswered or wrong: failing += 1
+                if wrong:
+                    res.fail('wrong-answer-after-history', case, str(wrong[:3]), None,
+                             'C06: after the history a valid request is not answered as a fresh server answers it')
+        if hist is not None: res.sample({'socket_history': hist[:12], 'N': n, 'probe_answered': okp})
     finally:
         shutil.rmtree(base, ignore_errors=True)
